@@ -165,6 +165,22 @@ pub fn suite_clirt(dir: &str, seed: u64, thorough: bool, st: &mut Stats) {
         // leaves exactly one new file
         let l = s.listing();
         if l != vec!["out.cba".to_string(), "src.bin".to_string()] { st.violation("C16", &format!("compress left {:?}", l), &replay); }
+        // C11 (file ends at the last stored chunk) when an existing, larger output is overwritten
+        if i % 4 == 1 {
+            let mut junk = archive.clone();
+            junk.extend((0..rng.range(1, 5000)).map(|_| rng.next() as u8));
+            s.write("over.cba", &junk);
+            let mut args3: Vec<String> = vec!["compress".into(), "--force-create".into(), "-i".into(), "src.bin".into()];
+            args3.extend(compress_args(&c));
+            args3.push("over.cba".into());
+            let argv3: Vec<&str> = args3.iter().map(|x| x.as_str()).collect();
+            let (code3, _) = s.bita(&argv3, None, &[]);
+            let over = s.read("over.cba").unwrap_or_default();
+            if code3 != 0 || over != archive {
+                st.violation("C11", "compress --force-create over an existing larger file does not leave exactly the archive", &replay);
+            }
+            let _ = std::fs::remove_file(s.p("over.cba"));
+        }
         // C12: second run, input through a pipe, other buffering
         let mut args2: Vec<String> = vec!["compress".into()];
         args2.extend(compress_args(&c));
@@ -492,4 +508,61 @@ pub fn suite_clitrace(dir: &str, seed: u64, thorough: bool, st: &mut Stats) {
         lines.push((line, eff.join(" ")));
     }, st, &mut out);
     out.finish();
+}
+
+// ---------------------------------------------------------------------------------------------
+/// C05 at the level of the real process: write faults and kills injected with strace on the output path
+pub fn suite_clifault(dir: &str, seed: u64, thorough: bool, st: &mut Stats) {
+    let mut out = SuiteOut::new(dir, "clifault");
+    let n = if thorough { 120 } else { 24 };
+    par_for(n, 8, |i, st, lines| {
+        let mut rng = Rng::new(seed ^ 0x96 ^ ((i as u64) << 20));
+        let s = Scn::new("ft", i as u64);
+        let single = i % 3 == 0;
+        let slen = if single { rng.range(1, 900) as usize } else { rng.range(5000, 40000) as usize };
+        let src = gen_data(&mut rng, slen).0;
+        s.write("src.bin", &src);
+        let (code, _) = s.bita(&["compress", "-i", "src.bin", "--min-chunk-size", "1024", "--avg-chunk-size", "2048", "--max-chunk-size", "8192", "a.cba"], None, &[]);
+        if code != 0 { return; }
+        let kind = *rng.pick(&["new", "inplace", "blockdev"]);
+        let mode = *rng.pick(&["eio", "eio", "kill"]);
+        let mut prior = if kind == "new" { vec![] } else { edit(&mut rng, &src) };
+        if kind == "blockdev" && prior.len() < src.len() { prior.resize(src.len(), 0x33); }
+        if kind != "new" { s.write("out.bin", &prior); }
+        let outp = s.p("out.bin").to_string_lossy().to_string();
+        let inject = if mode == "eio" { "inject=write:error=EIO:when=1".to_string() } else { "inject=write:signal=KILL:when=1".to_string() };
+        let mut args: Vec<String> = vec!["-f".into(), "-o".into(), "/dev/null".into(), "-P".into(), outp.clone(), "-e".into(), "trace=write".into(), "-e".into(), inject, bita_bin(), "clone".into()];
+        if kind != "new" { args.push("--seed-output".into()); }
+        args.push("a.cba".into()); args.push("out.bin".into());
+        let env: Vec<(&str, &str)> = if kind == "blockdev" { vec![("BITA_VERIF_FAKE_BLOCK_DEV", "1")] } else { vec![] };
+        let argv: Vec<&str> = args.iter().map(|x| x.as_str()).collect();
+        let (code1, _) = s.run("strace", &argv, None, &env);
+        let after1 = s.read("out.bin").unwrap_or_default();
+        let wrote_ok = if kind == "blockdev" { after1.len() >= src.len() && after1[..src.len()] == src[..] } else { after1 == src };
+        st.evaluations += 1;
+        st.oracle_checks += 2;
+        st.count(&format!("clifault/{}/{}/{}", kind, mode, if single { "single-write" } else { "multi" }));
+        let line = format!("clifault kind={} mode={} single={} src={}B prior={}B", kind, mode, single, src.len(), prior.len());
+        st.nontrivial_key(format!("{}{}", line, i).as_bytes());
+        st.sample(line.clone());
+        // a run whose write failed never reports success (unless nothing had to be written)
+        if code1 == 0 && !wrote_ok {
+            st.violation("C05", &format!("a write to the output failed ({}) but bita clone exited 0 with a wrong output", mode), &line);
+        }
+        // re-run in place completes
+        let mut args2: Vec<&str> = vec!["clone", "--seed-output", "--force-create", "a.cba", "out.bin"];
+        if !s.p("out.bin").exists() { args2 = vec!["clone", "a.cba", "out.bin"]; }
+        let (code2, log2) = s.bita(&args2, None, &env);
+        let after2 = s.read("out.bin").unwrap_or_default();
+        let ok2 = if kind == "blockdev" { after2.len() >= src.len() && after2[..src.len()] == src[..] } else { after2 == src };
+        if code2 != 0 || !ok2 {
+            st.violation("C05", &format!("re-run after an interrupted clone ({}) did not reproduce the source (exit {}): {}", mode, code2, log2.lines().last().unwrap_or("")), &line);
+        }
+        lines.push((format!("outfile {}", if code1 == 0 && !wrote_ok { "LOST" } else { "REPORTED" }), "outfile REPORTED".to_string()));
+    }, st, &mut out);
+    // the case lines of this suite are informational (both columns written by the harness): no model file
+    let _ = &mut out;
+    out.finish();
+    let _ = std::fs::remove_file(format!("{}/clifault.cases", dir));
+    let _ = std::fs::remove_file(format!("{}/clifault.impl", dir));
 }
